@@ -859,13 +859,42 @@ namespace plan
     // library's own statement of the values it accepts) may be set to a value inside that range. Parameters that change what the
     // oracle may assume or that the harness sets itself are left alone: range / goal_bias (set by the caller), intermediate_states
     // (separate registry entries, not strictly re-checkable), thread counts and sub-planner lists (threaded variants are C19's),
-    // and the GNAT shape parameters of STRIDE (mutually constrained). Integer ranges are capped at 2000 to keep cases small.
+    // and the GNAT shape parameters of STRIDE (mutually constrained). Switches ("0,1") are flipped; numeric parameters are moved by
+    // at most a factor of two from their default.
     // Decoding: one byte decides whether the case is tuned at all (exhausted input -> untouched defaults), then one byte per parameter.
+    // A setter that reports an error through the library's log (e.g. RRT*: "OrderedSampling requires either informed sampling or rejection
+    // sampling") has told the caller that the combination is not supported; such a configuration is skipped, not judged.
+    struct ErrorCapture : ompl::msg::OutputHandler
+    {
+        ompl::msg::OutputHandler *prev;
+        ompl::msg::LogLevel prevLevel;
+        std::string first;
+        ErrorCapture() : prev(ompl::msg::getOutputHandler()), prevLevel(ompl::msg::getLogLevel())
+        {
+            ompl::msg::useOutputHandler(this);
+            ompl::msg::setLogLevel(ompl::msg::LOG_ERROR);
+        }
+        ~ErrorCapture() override
+        {
+            ompl::msg::setLogLevel(prevLevel);
+            if (prev)
+                ompl::msg::useOutputHandler(prev);
+            else
+                ompl::msg::noOutputHandler();
+        }
+        void log(const std::string &text, ompl::msg::LogLevel level, const char *, int) override
+        {
+            if (level >= ompl::msg::LOG_ERROR && first.empty())
+                first = text;
+        }
+    };
+
     inline std::string tuneParams(vf::Src &s, const ob::PlannerPtr &pl, int per256 = 90)
     {
         std::string log;
         if (!s.chance(per256))
             return log;
+        ErrorCapture cap;
         static const char *skip[] = {"range", "goal_bias", "intermediate_states", "thread_count", "num_threads", "num_planners", "planners", "degree",
                                      "min_degree", "max_degree", "max_pts_per_leaf", "estimated_dimension"};
         std::vector<std::string> names;
@@ -916,18 +945,20 @@ namespace plan
                     hi = std::min(hi, 2000.0);
                 if (!(hi >= lo))
                     continue;
-                double v;
-                switch (s.weighted({2, 1, 1}))
+                // numeric parameters stay within a factor of two of the default (and inside the suggested range): the purpose is to
+                // reach the code paths behind the switches, not to probe the numeric limits of every knob
+                double def;
+                try
                 {
-                    case 0:
-                        v = (lo > 0 && hi / lo > 100) ? std::exp(s.real(std::log(lo), std::log(hi))) : s.real(lo, hi);
-                        break;
-                    case 1:
-                        v = lo;
-                        break;
-                    default:
-                        v = hi;
+                    def = std::stod(pl->params().getParam(nm)->getValue());
                 }
+                catch (...)
+                {
+                    continue;
+                }
+                if (!(def > 0) || !std::isfinite(def))
+                    continue;
+                double v = std::min(hi, std::max(lo, def * std::exp(s.real(-std::log(2.0), std::log(2.0)))));
                 if (integral)
                     val = std::to_string((long)std::floor(v + 0.5));
                 else
@@ -939,6 +970,8 @@ namespace plan
             }
             bool ok = pl->params().setParam(nm, val);
             log += " " + nm + "=" + val + (ok ? "" : "(refused)");
+            if (!cap.first.empty())
+                throw ompl::Exception("setting " + nm + "=" + val + " was answered with the error message: " + cap.first);
         }
         return log;
     }
